@@ -246,10 +246,20 @@ def r5_defaulted_delimiters_not_read(ctx):
     yield Ob('input path reads no defaulted delimiter attribute of a Segment', n_reads == 0, 'pyx12/', '' if not n_reads else '%d read(s)' % n_reads)
 
 
+def r6_charset_admits_every_delimiter_choice(ctx):
+    """any character of the declared set may be chosen as component separator and is then validated as the value of
+    ISA16; a character-set recogniser that rejects one member of its set makes the result depend on that choice.
+    C13.R1 (shared): the character-set expressions equal the X12 basic / extended sets."""
+    from . import c13
+    for o in c13.r1_languages(ctx):
+        yield o
+
+
 RULES = [
     Rule('C12.R1', 'no literal delimiter on the input path beyond the enumerated, re-verified exemptions', r1_literal_delimiters, floor=3),
     Rule('C12.R2', 'acknowledgement delimiters are literals; the input terminators flow nowhere in the visitors', r2_ack_delimiters, floor=7),
     Rule('C12.R3', 'delimiter provenance, CR/LF strip set, ISA not sub-split (shared with C01.R4-R6)', r3_shared_with_c01, floor=18),
     Rule('C12.R4', 'validation never inspects re-formatted text', r4_parsed_values_only, floor=1),
+    Rule('C12.R6', 'shared with C13.R1: the character-set recognisers accept every member of their set (any may be a separator, checked as ISA16)', r6_charset_admits_every_delimiter_choice, floor=15),
     Rule('C12.R5', 'no delimiter attribute of a Segment that the reader leaves at its literal default is read on the input path', r5_defaulted_delimiters_not_read, floor=1),
 ]
